@@ -211,7 +211,8 @@ pub fn run(prop: &str, cases: &[String]) -> RunOut {
                                 let cfg_w = c.is_writable.0 != 0;
                                 if m.is_signer { err = Some("an appended account is marked signer".into()); }
                                 if m.is_writable && !cfg_w { err = Some("an appended account is writable although its config is not".into()); }
-                                let present_ro_only = orig.iter().any(|x| x.pubkey == m.pubkey) && !orig.iter().any(|x| x.pubkey == m.pubkey && x.is_writable);
+                                let present_ro_only = before.iter().any(|x| x.pubkey == m.pubkey) && !before.iter().any(|x| x.pubkey == m.pubkey && x.is_writable);
+                                let _ = orig;
                                 if present_ro_only && m.is_writable { err = Some("an account present only read-only was appended writable".into()); }
                                 let absent = !before.iter().any(|x| x.pubkey == m.pubkey);
                                 let writable_somewhere = before.iter().any(|x| x.pubkey == m.pubkey && x.is_writable);
@@ -327,9 +328,9 @@ pub fn rand_cfg(rng: &mut Rng, world: &World, n_accts: usize, ixlen: usize) -> V
             for _ in 0..n {
                 seeds.push(match rng.below(8) {
                     0..=1 => { let k = rng.below(10) as usize; Seed::Literal { bytes: rng.bytes(k) } }
-                    2..=3 => { let i = small(rng, ixlen); let l = match rng.below(5) { 0 => 32, 1 => 33, 2 => (ixlen as u8).saturating_sub(i), 3 => (ixlen as u8).saturating_sub(i).saturating_add(1), _ => rng.below(9) as u8 }; Seed::InstructionData { index: i, length: l } }
+                    2..=3 => { let i = if ixlen > 200 && rng.chance(1, 2) { rng.range(200, 255) as u8 } else { small(rng, ixlen) }; let l = match rng.below(6) { 5 => (255u8 - i).wrapping_add(rng.below(4) as u8), 0 => 32, 1 => 33, 2 => (ixlen as u8).saturating_sub(i), 3 => (ixlen as u8).saturating_sub(i).saturating_add(1), _ => rng.below(9) as u8 }; Seed::InstructionData { index: i, length: l } }
                     4..=5 => Seed::AccountKey { index: small(rng, n_accts) },
-                    _ => Seed::AccountData { account_index: small(rng, n_accts), data_index: rng.below(12) as u8, length: match rng.below(4) { 0 => 32, 1 => 33, _ => rng.below(10) as u8 } },
+                    _ => { let di = if rng.chance(1, 3) { rng.range(220, 255) as u8 } else { rng.below(12) as u8 }; Seed::AccountData { account_index: small(rng, n_accts), data_index: di, length: match rng.below(5) { 0 => 32, 1 => 33, 2 => (255u8 - di).wrapping_add(rng.below(4) as u8), _ => rng.below(10) as u8 } } }
                 });
             }
             let disc = if rng.chance(3, 4) { 1 } else { 128 + small(rng, n_accts) % 128 };
@@ -339,8 +340,8 @@ pub fn rand_cfg(rng: &mut Rng, world: &World, n_accts: usize, ixlen: usize) -> V
             }
         }
         8..=9 => {
-            let kd = if rng.chance(1, 2) { PubkeyData::InstructionData { index: match rng.below(3) { 0 => (ixlen as u8).saturating_sub(32), 1 => (ixlen as u8).saturating_sub(31), _ => small(rng, ixlen) } } }
-                else { PubkeyData::AccountData { account_index: small(rng, n_accts), data_index: rng.below(50) as u8 } };
+            let kd = if rng.chance(1, 2) { PubkeyData::InstructionData { index: match rng.below(4) { 3 => rng.range(220, 255) as u8, 0 => (ixlen as u8).saturating_sub(32), 1 => (ixlen as u8).saturating_sub(31), _ => small(rng, ixlen) } } }
+                else { PubkeyData::AccountData { account_index: small(rng, n_accts), data_index: if rng.chance(1, 3) { rng.range(220, 255) as u8 } else { rng.below(50) as u8 } } };
             cfg_bytes(2, &PubkeyData::pack_into_address_config(&kd).unwrap(), s, w)
         }
         10 => { let mut c = [0u8; 32]; for x in c.iter_mut() { *x = rng.byte(); } cfg_bytes(rng.byte(), &c, s, w) }
@@ -348,7 +349,7 @@ pub fn rand_cfg(rng: &mut Rng, world: &World, n_accts: usize, ixlen: usize) -> V
     }
 }
 
-fn rand_data(rng: &mut Rng) -> Vec<u8> { let n = match rng.below(5) { 0 => 0, 1 => 32, 2 => 33, _ => rng.below(81) as usize }; rng.bytes(n) }
+fn rand_data(rng: &mut Rng) -> Vec<u8> { let n = match rng.below(8) { 0 => 0, 1 => 32, 2 => 33, 3 => rng.range(250, 300) as usize, 4 => *rng.pick(&[254usize, 255, 256, 257, 287, 288]), _ => rng.below(81) as usize }; rng.bytes(n) }
 
 pub fn generate_c05(tier: &str, rng: &mut Rng) -> Vec<String> {
     let mut v = vec![];
